@@ -14,7 +14,12 @@ def handled_events(case: gen.Case, cfg) -> List[str]:
     out = set()
     for t in case.trans:
         if t.kind == "on" and t.source.id in cfg and not t.forbidden:
-            out.add(t.event)
+            if t.event == "*":
+                out.update(case.events)
+            elif t.event.endswith(".*"):
+                out.update(e for e in case.events if e == t.event[:-2] or e.startswith(t.event[:-1]))
+            else:
+                out.add(t.event)
     return sorted(out)
 
 
@@ -91,12 +96,13 @@ def run_sync(case: gen.Case, nevents: int, rng: random.Random, on_step: Callable
             gt.update(rand_gtable(rng, case))
         ev = events[i] if events is not None else pick_event(rng, case, config_of(interp), i)
         run["events"].append(ev)
+        evobj = None
         if pre_step:
-            pre_step(run, i, ev)
+            evobj = pre_step(run, i, ev)      # may hand back the very Event object to deliver
         mark = len(rec.log)
         exc = None
         try:
-            interp.send(_mk_event(ev))
+            interp.send(evobj if isinstance(evobj, Event) else _mk_event(ev))
         except Exception as e:
             exc = e
         st = Step(i, "send", ev, config_of(interp), interp.context, interp.status,
@@ -159,12 +165,13 @@ def run_async(case: gen.Case, nevents: int, rng: random.Random, on_step: Callabl
                 gt.update(rand_gtable(rng, case))
             ev = events[i] if events is not None else pick_event(rng, case, config_of(interp), i)
             run["events"].append(ev)
+            evobj = None
             if pre_step:
-                pre_step(run, i, ev)
+                evobj = pre_step(run, i, ev)
             mark = len(rec.log)
             exc = None
             try:
-                await interp.send(_mk_event(ev))
+                await interp.send(evobj if isinstance(evobj, Event) else _mk_event(ev))
                 if not await drain(interp):
                     run["undrained"] += 1
             except Exception as e:
